@@ -674,6 +674,13 @@ func restoreGroupState(group *metadatapb.ConsumerGroup) *groupState {
 		assignments:      make(map[string][]assignmentTopic),
 		rebalanceTimeout: rebalanceTimeout,
 	}
+	// Which members had already re-joined is not persisted. While a rebalance is
+	// still collecting joins nobody may be assumed to have joined the restored
+	// generation, otherwise the first re-join would complete the rebalance alone.
+	joinGeneration := group.GenerationId
+	if state.state == groupStatePreparingRebalance {
+		joinGeneration = 0
+	}
 	for memberID, member := range group.Members {
 		sessionTimeout := defaultSessionTimeout
 		if member.SessionTimeoutMs > 0 {
@@ -682,7 +689,7 @@ func restoreGroupState(group *metadatapb.ConsumerGroup) *groupState {
 		entry := &memberState{
 			topics:         append([]string(nil), member.Subscriptions...),
 			sessionTimeout: sessionTimeout,
-			joinGeneration: group.GenerationId,
+			joinGeneration: joinGeneration,
 		}
 		if member.HeartbeatAt != "" {
 			if parsed, err := time.Parse(time.RFC3339Nano, member.HeartbeatAt); err == nil {
